@@ -83,6 +83,10 @@ type Property struct {
 	// SelfTest, when set, returns corrupted copies of accepted traces that the judge MUST reject
 	// (guards against a vacuous judge). A self-test failure is exit 2.
 	SelfTest func(env *Env, accepted []*Trace) []*Trace
+	// RealisableFloor: minimal share of realisable behaviours per primary generation source (names not
+	// starting with "legacy"); below it the model no longer matches the code and the run is exit 2.
+	// 0 means the default (0.5); negative disables the guard.
+	RealisableFloor float64
 	// PostDrive lets a property inspect all traces (e.g. dead-driver handling) before judging.
 	PostDrive func(env *Env, traces []*Trace) error
 }
@@ -350,6 +354,23 @@ func (rs *runState) run(replay string, keep bool) int {
 			}
 			fmt.Println(line)
 			rs.srcStats = append(rs.srcStats, line)
+		}
+		floor := p.RealisableFloor
+		if floor == 0 {
+			floor = 0.5
+		}
+		if floor > 0 && replay == "" {
+			for _, s := range srcs {
+				c := by[s]
+				tot := c.n[Realised] + c.n[Unrealisable]
+				if strings.HasPrefix(s, "legacy") || s == "extra" || tot < 20 {
+					continue
+				}
+				if share := float64(c.n[Realised]) / float64(tot); share < floor {
+					rs.writeEvidence(2)
+					fail2("the model no longer matches the code: only %.0f%% of the behaviours of source %q could be realised (floor %.0f%%); e.g. %s", share*100, s, floor*100, c.note)
+				}
+			}
 		}
 	}
 	if counts[DriverError] > 0 {
